@@ -43,6 +43,10 @@ SPECIAL = [
     "x = [1,\n\n  # c\n  2]\n",
     "\fx = 1\n",
     "if a:\n\tb\n",
+    "with! a:\n    b\n    # still in the block\n",
+    "with! a:\n    # c\n\n    b\n\n",
+    "if z:\n    with! a:\n        b\n        # in the block\n",
+    "s = 'é'; $X = ${'ü'}\n",
     "'c'\n",
     "p'a' pf'b{c}'\n",
     "pf'a{b}' 'c'\n",
